@@ -109,13 +109,13 @@ fn group_by_slice<const N: usize>() {
 
 /// Groups across the boundary of two flattened slices (the mmapper's use: slabs of chunk states).
 #[kani::proof]
-#[kani::unwind(7)]
-fn c40_group_by_flattened() {
-    group_by_flattened::<4>();
+#[kani::unwind(6)]
+fn c40_group_by_flattened_n3_exp() {
+    group_by_flattened::<3>();
 }
 #[kani::proof]
 #[kani::unwind(10)]
-fn c40_group_by_flattened_deep() {
+fn c40_group_by_flattened_n7_exp() {
     group_by_flattened::<7>();
 }
 fn group_by_flattened<const N: usize>() {
@@ -157,7 +157,7 @@ fn group_by_flattened<const N: usize>() {
         );
     }
     check(&data, n, m, &o);
-    kani::cover!(o.groups == 1 && cut == 2 && n == N, "C40.cover.run_spans_the_slice_boundary");
+    kani::cover!(o.groups == 1 && cut == 1 && n == N, "C40.cover.run_spans_the_slice_boundary");
     kani::cover!(o.groups == 2 && cut == 1, "C40.cover.two_groups_across_slices");
     kani::cover!(cut == 0 && n > 0, "C40.cover.empty_first_slice");
 }
